@@ -5,6 +5,9 @@ import importlib
 import random
 
 
+_MISSING = object()
+
+
 class FakeUUID(object):
     def __init__(self, n):
         self.hex = '%032x' % n
@@ -41,12 +44,16 @@ def rebind(pairs):
     try:
         for modname, attr, val in pairs:
             mod = importlib.import_module(modname)
-            saved.append((mod, attr, getattr(mod, attr)))
+            saved.append((mod, attr, mod.__dict__.get(attr, _MISSING)))
             setattr(mod, attr, val)
         yield
     finally:
         for mod, attr, old in reversed(saved):
-            setattr(mod, attr, old)
+            if old is _MISSING:
+                if attr in mod.__dict__:
+                    delattr(mod, attr)      # the name was a builtin (e.g. open): fall back to it again
+            else:
+                setattr(mod, attr, old)
 
 
 class TapeRandom(object):
